@@ -96,7 +96,7 @@ FieldOK(f, named, container_named) ==
   /\ (Has(f.attrs, "optional") \/ Has(f.attrs, "optional_nullable") \/ Has(f.attrs, "optional_ssi")) =>
         (named /\ f.ty \in S(Cfg.options))                                             \* #[ts(optional)]: named Option fields
   /\ (Has(f.attrs, "skip") \/ Has(f.attrs, "default")) => f.ty \in S(Cfg.defaultable)    \* serde(skip / default) need Default to deserialize
-  /\ Has(f.attrs, "rename") => named
+  /\ (Has(f.attrs, "rename") \/ Has(f.attrs, "rename_q")) => named
   /\ ~(Has(f.attrs, "flatten") /\ (Has(f.attrs, "inline") \/ Has(f.attrs, "rename") \/ Has(f.attrs, "skip")))
   /\ ~(Has(f.attrs, "inline") /\ Has(f.attrs, "skip"))
 
